@@ -423,3 +423,15 @@ func vpSubRPC(from peer.ID, topic string, sub bool) *RPC {
 func vpStr(s string) *string { return &s }
 func vpU64(v uint64) *uint64 { return &v }
 func vpB(v bool) *bool       { return &v }
+
+// loop runs the REAL processLoop until it has nothing left to do (it then blocks in its select, which ends the call
+// in the engine; natively the goroutine stays parked there and another one is started by the next call, which is
+// equivalent since the loop keeps no state of its own). Harnesses that use it end with n.shutdown().
+func (n *vpNode) loop() {
+	vpBlocks(func() { n.ps.processLoop(n.ps.ctx) })
+}
+
+func (n *vpNode) shutdown() {
+	n.cancel()
+	vpFireAll()
+}
